@@ -14,7 +14,7 @@ git apply "out/$K/patch.diff" || { echo "$ID: patch does not apply"; exit 3; }
 r_mut=$(run_demo mut)
 rm -f "tarpc/tests/${demo_name}.rs"
 cargo test --workspace --no-fail-fast --offline >"out/$K/verify_suite.log" 2>&1
-failed=$(grep -E '^test .* FAILED' "out/$K/verify_suite.log" | grep -v 'test ui ' | wc -l)
+failed=$(grep -E '^test .* FAILED' "out/$K/verify_suite.log" | grep -v -E 'test ui |^test result' | wc -l)
 passed=$(grep -E '^test result: ok' "out/$K/verify_suite.log" | awk '{s+=$4} END {print s+0}')
 git checkout -q -- . ; git clean -fdq -e out -e PROPERTY.txt -e target
 echo "$ID: demo clean rc=$r_clean, demo mutated rc=$r_mut, suite with patch: $passed passed, $failed unexpected failures"
